@@ -8,7 +8,8 @@ Import ListNotations.
    be reflected), every list of calls per thread (any number of threads; the calls are on
    types, [calls_ok]), every depth of observation —
    under every schedule the completed calls returned their solo results, and while a call
-   is outstanding some thread can take a state-changing step (no deadlock);
+   is outstanding some thread that is not blocked (it is not queued on the lock, or the lock is free: can_step)
+   can take a state-changing step (no deadlock — queueing behind the lock does not count as progress);
    every weakly fair schedule (rounds, each scheduling every thread at least once; this is
    the ONLY assumption on the scheduler, and none is made on the order in which sc.mu is
    granted: a released lock goes to whichever blocked or arriving thread runs next) of
@@ -21,7 +22,8 @@ Definition C10_logic_statement (d : disc) : Prop :=
     (forall sched t, exists j, nth t (results (run d k g calls sched)) [] =
                                map (result_solo k g) (firstn j (nth t calls []))) /\
     (forall sched, all_done (run d k g calls sched) = false ->
-       exists t, t < length calls /\ gstep d k g t (run d k g calls sched) <> run d k g calls sched) /\
+       exists t, t < length calls /\ can_step (run d k g calls sched) t /\
+                 gstep d k g t (run d k g calls sched) <> run d k g calls sched) /\
     (forall rounds, weakly_fair (length calls) rounds -> fuel_bound g calls <= length rounds ->
        all_done (run d k g calls (concat rounds)) = true /\
        results (run d k g calls (concat rounds)) = map (map (result_solo k g)) calls) /\
